@@ -31,6 +31,20 @@ fn load_replay(path: &std::path::Path) -> Result<(String, String, Value, Option<
 }
 
 fn main() {
+    // glibc serves large blocks with mmap/munmap; with 16 workers allocating (zip deflate buffers,
+    // workbook copies) the page faults dominate the run time. Keep such blocks on the heap.
+    {
+        extern "C" {
+            fn mallopt(param: i32, value: i32) -> i32;
+        }
+        const M_TRIM_THRESHOLD: i32 = -1;
+        const M_MMAP_THRESHOLD: i32 = -3;
+        // SAFETY: plain libc configuration call made before any thread is started
+        unsafe {
+            mallopt(M_MMAP_THRESHOLD, 32 << 20);
+            mallopt(M_TRIM_THRESHOLD, 512 << 20);
+        }
+    }
     engine::panics::install_hook();
     let args: Vec<String> = std::env::args().skip(1).collect();
     if args.is_empty() {
